@@ -277,7 +277,7 @@ func run(c *Ctx) {
 	if isBinary() {
 		variant = "binary_log"
 	}
-	c.Res.Rule = "a case is a call chain over the allocation-free method set (regular typed fields and slices, Dict, Array incl. Array.Dict/Object, Object of a pointer marshaler, Func, Err/AnErr of a plain error, Timestamp, TimeDiff; nesting depth <= 3), compiled to closures; each is run on a logger without context, with context + timestamp hook, and level-filtered; measured with AllocsPerRun(100) and with pool-miss counters on freshly emptied pools; build: " + variant + "; non-trivial = touches a pool beyond its own event (Dict/Array/Object nesting); distinct by Gallina term; directed: 12 encoding settings x 8 slice lengths x 3 loggers; failing destinations; 18 chains whose arguments are built inside the measured function (slice literals for every slice method, slices of local arrays for Hex/Bytes/RawJSON, struct / int / array values boxed for Type, a closure for Func, the same inside Dict and Arr) x 4 loggers (plain, context+timestamp, Disabled, Info below WarnLevel) under AllocsPerRun(100); 9 histories (event / Arr / Dict / filtered Dict+Arr that outgrew 64 KiB, once or twice, grown to 5 KB / 60 KB, none) x re-warming with 3 or 60 short lines x 2 loggers, then a ladder of 10 larger lines that fit the pooled 500-byte buffer, each measured on its first occurrence (mallocs of one call); inputs that change from event to event: 13 TimestampFunc clocks (frozen, steps of 1 ms .. 25 h, backwards, two / four zones in turn, a cycle of 64 instants) x 7 TimeFieldFormats x 5 ways of reading the clock (With().Timestamp() hook, on a child, Event.Timestamp(), twice and inside a Dict, filtered), and 12 chains over the value-taking methods that take another value / key / message of a prebuilt table of 64 on every repetition x 3 loggers x 3 time formats, under AllocsPerRun(100); large arguments: every slice method x (100 .. 16000 one-digit values, 100 .. 1500 maximal-width values), Str / Bytes / Hex / RawJSON / Arr / Dict of 1 .. 30 KB, long contexts, x 3 loggers in steady state under AllocsPerRun(8): 0 demanded for lines of at most 32 KiB (half the pool's 64 KiB limit), larger ones recorded only; mixed-size histories: cycles of lines (a big line alone / followed by 1, 2, 5, 17, 64 short lines / by every short line; big = Str, Bytes, Hex, RawJSON, Ints, Strs, Msg, Func, a big field before / after / between small Dict()s, next to a small Arr(), a big Dict / Arr; ladders of all sizes in one cycle; two loggers with a long and a short context in turn) with big payloads of 1, 2, 4, 8, 16, 30 KB against short lines of 30 .. 450 bytes x 3 loggers, measured per cycle in steady state (the cycle ran 6 times before; mallocs of 10 further cycles, minimum of 3 measurements): 0 demanded when the largest line is at most 32 KiB"
+	c.Res.Rule = "a case is a call chain over the allocation-free method set (regular typed fields and slices, Dict, Array incl. Array.Dict/Object, Object of a pointer marshaler, Func, Err/AnErr of a plain error, Timestamp, TimeDiff; nesting depth <= 3), compiled to closures; each is run on a logger without context, with context + timestamp hook, and level-filtered; measured with AllocsPerRun(100) and with pool-miss counters on freshly emptied pools; build: " + variant + "; non-trivial = touches a pool beyond its own event (Dict/Array/Object nesting); distinct by Gallina term; directed: 12 encoding settings x 8 slice lengths x 3 loggers; failing destinations; 18 chains whose arguments are built inside the measured function (slice literals for every slice method, slices of local arrays for Hex/Bytes/RawJSON, struct / int / array values boxed for Type, a closure for Func, the same inside Dict and Arr) x 4 loggers (plain, context+timestamp, Disabled, Info below WarnLevel) under AllocsPerRun(100); 9 histories (event / Arr / Dict / filtered Dict+Arr that outgrew 64 KiB, once or twice, grown to 5 KB / 60 KB, none) x re-warming with 3 or 60 short lines x 2 loggers, then a ladder of 10 larger lines that fit the pooled 500-byte buffer, each measured on its first occurrence (mallocs of one call); inputs that change from event to event: 13 TimestampFunc clocks (frozen, steps of 1 ms .. 25 h, backwards, two / four zones in turn, a cycle of 64 instants) x 7 TimeFieldFormats x 5 ways of reading the clock (With().Timestamp() hook, on a child, Event.Timestamp(), twice and inside a Dict, filtered), and 12 chains over the value-taking methods that take another value / key / message of a prebuilt table of 64 on every repetition x 3 loggers x 3 time formats, under AllocsPerRun(100); large arguments: every slice method x (100 .. 16000 one-digit values, 100 .. 1500 maximal-width values), Str / Bytes / Hex / RawJSON / Arr / Dict of 1 .. 30 KB, long contexts, x 3 loggers in steady state under AllocsPerRun(8): 0 demanded for lines of at most 32 KiB (half the pool's 64 KiB limit), larger ones recorded only; mixed-size histories: cycles of lines (a big line alone / followed by 1, 2, 5, 17, 64 short lines / by every short line; big = Str, Bytes, Hex, RawJSON, Ints, Strs, Msg, Func, a big field before / after / between small Dict()s, next to a small Arr(), a big Dict / Arr; ladders of all sizes in one cycle; two loggers with a long and a short context in turn) with big payloads of 1, 2, 4, 8, 16, 30 KB against short lines of 30 .. 450 bytes x 3 loggers, measured per cycle in steady state (the cycle ran 6 times before; mallocs of 10 further cycles, minimum of 3 measurements): 0 demanded when the largest line is at most 32 KiB; error values of 25 shapes built before the measurement (errors.New, pointer / value / int types, %w chains of depth 1, 2, 3, 12, two %w, %v, user types with Unwrap() error / Unwrap() []error, errors.Join, an Error() that formats on demand, a pointer LogObjectMarshaler error, chains that end in / pass through a marshaler, nil, typed nil) x 13 entry points (Err, AnErr, both, Logger.Err, inside Dict / Func / a marshaler, Array.Err, a context built with With().Err; Errs and Fields recorded only) x 4 loggers under AllocsPerRun(100): 0 demanded for values whose own Error() is measured at 0 allocations (plain), for marshaler errors, nil, and on every filtered logger; pasts (run first, on the library's own pools, explicit runtime.GC() only): 18 cumulative histories (k = 1 .. 100 rounds of 'log n events, GC, GC', a single GC after every event, bursts of G = 2 .. 200 goroutines each holding an event then GC GC, Dict()s nested 2 .. 40 deep, rounds of all shapes, oversize / abandoned events, filtered rounds), each followed by 6 warm-up cycles and AllocsPerRun(100) of 8 line shapes (plain, typed fields, context, Dict, Dict in Dict, Arr with Dict, Arr.Object, filtered): 0 demanded as on a fresh process"
 	c.OpenShards("From Verif Require Import Base.Prelude Base.Decimal Enc.JsonEnc Misc.Level Api.Exec Heap.Pool Harness.C07H.", "c07_case * (Z * Z)", "mismatches c07_run c07_eqb", 400)
 	debug.SetGCPercent(-1) // sync.Pool is cleared by GC: keep the pools' contents while counting
 	defer debug.SetGCPercent(100)
@@ -293,6 +293,8 @@ func run(c *Ctx) {
 	zerolog.TimestampFunc = func() time.Time { return now }
 	zerolog.SetGlobalLevel(zerolog.Level(-128))
 	defer zerolog.SetGlobalLevel(zerolog.DebugLevel)
+	// directed, FIRST (on the library's own pools, before any VerifResetPools): pasts with collections and bursts (gchistory.go)
+	gcHistories(c, variant)
 	for i := 0; i < n; i++ {
 		g := &gen{r: c.R.Fork(), now: now}
 		ops, fs := g.genOps(3, 5)
@@ -440,6 +442,7 @@ func run(c *Ctx) {
 	stackResidentArguments(c, variant)
 	warmAfterHistory(c, variant)
 	changingInputs(c, variant)
+	errorShapes(c, variant)
 	largeArguments(c, variant)
 	mixedSizeHistories(c, variant)
 	// corpus: the two fixed leaks (F10, F12)
